@@ -416,6 +416,14 @@ func (e *vestEnv) genOp0(r *rand.Rand, now time.Time) vOp {
 		name := fmt.Sprintf("p%d", r.Intn(6))
 		if r.Intn(4) == 0 {
 			name = strings.ToUpper(name) // pool names are case-sensitive: "P1" is not "p1"
+			// preferably the variant of a pool the owner already has
+			if ps := pools[owner.Bech()]; len(ps) > 0 && r.Intn(2) == 0 {
+				if n0 := ps[r.Intn(len(ps))].Name; strings.ToUpper(n0) != n0 {
+					name = strings.ToUpper(n0)
+				} else {
+					name = strings.ToLower(n0)
+				}
+			}
 		}
 		amt := e.randAmount(r, new(big.Int).Exp(big.NewInt(10), big.NewInt(int64(r.Intn(24))), nil))
 		if r.Intn(12) == 0 {
